@@ -2,6 +2,7 @@ import CardModel.Spec.Legality
 import CardVerif.Props.C14
 import CardVerif.Proofs.Progress
 import CardVerif.Proofs.Termination
+import CardVerif.Proofs.EvalTotal
 /-!
 # C13 — progress and termination
 
@@ -10,6 +11,17 @@ import CardVerif.Proofs.Termination
   a seat to move to exists, a starting seat exists on each new street, the run-out samples fit the deck, the
   evaluator is applied to a five-card board, the showdown ranking contains a holder of the largest contribution
   (also after rake), so settlement distributes the whole pot and never raises "still money in the pot".
+  The evaluator hypothesis comes in two strengths.  `no_internal_error(_B/_f53)` assume `RankTotal`: the evaluator
+  succeeds on EVERY five-card board and hand, duplicates included – no evaluator of the model satisfies that (`rank5`
+  fails on five equal cards), so these forms only apply to idealised evaluators.  `no_internal_error_on(_B/_f53)` assume
+  `RankTotalOn` – success on distinct valid cards only – together with `cfg.Dealt` (each hand, the preset board and the
+  deck are distinct valid cards): board and deck of a reachable state always hold the configured cards and a run-out
+  takes distinct cards of the deck, so the evaluator never sees anything else.  The real evaluators satisfy
+  `RankTotalOn` by C06, which gives the hypothesis-free instances `no_internal_error_nlhe(_f53)` (`Eval.holdemStrength`),
+  `no_internal_error_nlhe_brute(_f53)` (`Eval.holdemBrute`, what the driver runs) and `no_internal_error_plo_brute(_f53)`
+  (`Eval.omahaBrute`).  The optimised Omaha evaluator `Omaha.handStrengthFast` (what the driver runs for PLO) is covered
+  by `C06.plo_no_internal_error(_f53)` in `Props/C06b.lean`, because its totality rests on the compiled-code tables of
+  C06; nothing in this file depends on them.
 * `terminates` – every sequence of accepted actions is bounded in length by an explicit function of the
   configuration (lexicographic measure: chips behind, streets left, seats still to act).
 * `complete_shape` – a complete hand is on the showdown street, has a payout for every seat and rejects every action.
@@ -53,6 +65,77 @@ theorem no_internal_error_f53 (env : Env) (cfg : Cfg) (hw : env.w = World.std) (
     (p : Int) (ty : Option ActType) (amt : Option Int) (h1 : s.appendAction env.w p ty amt = .ok s1) :
     ∃ s', s1.advanceAction env = .ok s' :=
   no_internal_error_B env cfg hw (by rw [hfl]; exact C14.flSpecB_f53) hv hB hrank h p ty amt h1
+
+/-! ### the same for evaluators that are total on distinct valid cards only (the real ones) -/
+
+/-- **`no_internal_error` for an evaluator that only succeeds on distinct valid cards**, cards dealt from one deck -/
+theorem no_internal_error_on (env : Env) (cfg : Cfg) (hw : env.w = World.std) (hfl : C14.FlSpec env.fl)
+    (hv : cfg.Valid) (hd : cfg.Dealt) (hrank : RankTotalOn cfg.game env.rankFn) {s s1 : State}
+    (h : Reachable env cfg s)
+    (p : Int) (ty : Option ActType) (amt : Option Int) (h1 : s.appendAction env.w p ty amt = .ok s1) :
+    ∃ s', s1.advanceAction env = .ok s' :=
+  advanceAction_total_of_reachable_on hw hfl hv hd hrank h h1
+
+/-- `no_internal_error_on` for a rounding that is exact only up to `B`, with at most `B` chips on the table -/
+theorem no_internal_error_on_B (env : Env) (cfg : Cfg) (hw : env.w = World.std) {B : Int}
+    (hfl : C14.FlSpecB B env.fl) (hv : cfg.Valid) (hB : sumI cfg.startingStacks ≤ B) (hd : cfg.Dealt)
+    (hrank : RankTotalOn cfg.game env.rankFn) {s s1 : State} (h : Reachable env cfg s)
+    (p : Int) (ty : Option ActType) (amt : Option Int) (h1 : s.appendAction env.w p ty amt = .ok s1) :
+    ∃ s', s1.advanceAction env = .ok s' :=
+  advanceAction_total_of_reachable_B_on hw hfl hv hB hd hrank h h1
+
+/-- `no_internal_error_on` for IEEE doubles, at most `2^53` chips on the table -/
+theorem no_internal_error_on_f53 (env : Env) (cfg : Cfg) (hw : env.w = World.std) (hfl : env.fl = Float53.rnd)
+    (hv : cfg.Valid) (hB : sumI cfg.startingStacks ≤ 2 ^ 53) (hd : cfg.Dealt)
+    (hrank : RankTotalOn cfg.game env.rankFn) {s s1 : State} (h : Reachable env cfg s)
+    (p : Int) (ty : Option ActType) (amt : Option Int) (h1 : s.appendAction env.w p ty amt = .ok s1) :
+    ∃ s', s1.advanceAction env = .ok s' :=
+  no_internal_error_on_B env cfg hw (by rw [hfl]; exact C14.flSpecB_f53) hv hB hd hrank h p ty amt h1
+
+/-- **Hold'em with the real evaluator** (`get_hand_strength_fast`): no hypothesis on the evaluator -/
+theorem no_internal_error_nlhe (env : Env) (cfg : Cfg) (hw : env.w = World.std) (hfl : C14.FlSpec env.fl)
+    (hv : cfg.Valid) (hd : cfg.Dealt) (hg : cfg.game = .nlhe) (hr : env.rankFn = Eval.holdemStrength)
+    {s s1 : State} (h : Reachable env cfg s)
+    (p : Int) (ty : Option ActType) (amt : Option Int) (h1 : s.appendAction env.w p ty amt = .ok s1) :
+    ∃ s', s1.advanceAction env = .ok s' :=
+  no_internal_error_on env cfg hw hfl hv hd (by rw [hg, hr]; exact rankTotalOn_holdemStrength) h p ty amt h1
+
+theorem no_internal_error_nlhe_f53 (env : Env) (cfg : Cfg) (hw : env.w = World.std) (hfl : env.fl = Float53.rnd)
+    (hv : cfg.Valid) (hB : sumI cfg.startingStacks ≤ 2 ^ 53) (hd : cfg.Dealt) (hg : cfg.game = .nlhe)
+    (hr : env.rankFn = Eval.holdemStrength) {s s1 : State} (h : Reachable env cfg s)
+    (p : Int) (ty : Option ActType) (amt : Option Int) (h1 : s.appendAction env.w p ty amt = .ok s1) :
+    ∃ s', s1.advanceAction env = .ok s' :=
+  no_internal_error_on_f53 env cfg hw hfl hv hB hd (by rw [hg, hr]; exact rankTotalOn_holdemStrength) h p ty amt h1
+
+/-- **Hold'em with the brute-force evaluator** (`brute_force_holdem_rank`, the native driver's `rankFnOf .nlhe`) -/
+theorem no_internal_error_nlhe_brute (env : Env) (cfg : Cfg) (hw : env.w = World.std) (hfl : C14.FlSpec env.fl)
+    (hv : cfg.Valid) (hd : cfg.Dealt) (hg : cfg.game = .nlhe) (hr : env.rankFn = Eval.holdemBrute)
+    {s s1 : State} (h : Reachable env cfg s)
+    (p : Int) (ty : Option ActType) (amt : Option Int) (h1 : s.appendAction env.w p ty amt = .ok s1) :
+    ∃ s', s1.advanceAction env = .ok s' :=
+  no_internal_error_on env cfg hw hfl hv hd (by rw [hg, hr]; exact rankTotalOn_holdemBrute) h p ty amt h1
+
+theorem no_internal_error_nlhe_brute_f53 (env : Env) (cfg : Cfg) (hw : env.w = World.std)
+    (hfl : env.fl = Float53.rnd) (hv : cfg.Valid) (hB : sumI cfg.startingStacks ≤ 2 ^ 53) (hd : cfg.Dealt)
+    (hg : cfg.game = .nlhe) (hr : env.rankFn = Eval.holdemBrute) {s s1 : State} (h : Reachable env cfg s)
+    (p : Int) (ty : Option ActType) (amt : Option Int) (h1 : s.appendAction env.w p ty amt = .ok s1) :
+    ∃ s', s1.advanceAction env = .ok s' :=
+  no_internal_error_on_f53 env cfg hw hfl hv hB hd (by rw [hg, hr]; exact rankTotalOn_holdemBrute) h p ty amt h1
+
+/-- **Omaha with the brute-force evaluator** (`brute_force_omaha_hi_rank`) -/
+theorem no_internal_error_plo_brute (env : Env) (cfg : Cfg) (hw : env.w = World.std) (hfl : C14.FlSpec env.fl)
+    (hv : cfg.Valid) (hd : cfg.Dealt) (hg : cfg.game = .plo) (hr : env.rankFn = Eval.omahaBrute)
+    {s s1 : State} (h : Reachable env cfg s)
+    (p : Int) (ty : Option ActType) (amt : Option Int) (h1 : s.appendAction env.w p ty amt = .ok s1) :
+    ∃ s', s1.advanceAction env = .ok s' :=
+  no_internal_error_on env cfg hw hfl hv hd (by rw [hg, hr]; exact rankTotalOn_omahaBrute) h p ty amt h1
+
+theorem no_internal_error_plo_brute_f53 (env : Env) (cfg : Cfg) (hw : env.w = World.std)
+    (hfl : env.fl = Float53.rnd) (hv : cfg.Valid) (hB : sumI cfg.startingStacks ≤ 2 ^ 53) (hd : cfg.Dealt)
+    (hg : cfg.game = .plo) (hr : env.rankFn = Eval.omahaBrute) {s s1 : State} (h : Reachable env cfg s)
+    (p : Int) (ty : Option ActType) (amt : Option Int) (h1 : s.appendAction env.w p ty amt = .ok s1) :
+    ∃ s', s1.advanceAction env = .ok s' :=
+  no_internal_error_on_f53 env cfg hw hfl hv hB hd (by rw [hg, hr]; exact rankTotalOn_omahaBrute) h p ty amt h1
 
 /-- `k` accepted actions lead from `s` to `s'` -/
 inductive Run (env : Env) : State → Nat → State → Prop
